@@ -474,7 +474,7 @@ class DocSync:
                     if dst[key] == value:
                         continue
                     elif isinstance(value, Mapping):
-                        self(src[key], dst[key], key + ".")
+                        self(src[key], dst[key], root + key + ".")
                         continue
                     elif self.key_strategy is None or not self.key_strategy(root + key):
                         self.skipped_keys.add(root + key)
